@@ -390,6 +390,21 @@ protected:
 
 
 
+#if !defined FIX8_VERIF_TSAN_RELEASE
+#if defined FIX8_VERIF && defined __SANITIZE_THREAD__
+// Verification hook (ThreadSanitizer builds with FIX8_VERIF only): FastFlow synchronises with volatile accesses, CAS and compiler
+// barriers that ThreadSanitizer cannot see; the hand-over of a block (through the queue, or back to its allocator) is made visible
+// as a release / acquire pair on the block's address.  Calls only; nothing else changes.
+extern "C" void __tsan_acquire(void *addr);
+extern "C" void __tsan_release(void *addr);
+#define FIX8_VERIF_TSAN_RELEASE(p) __tsan_release((void *)(p))
+#define FIX8_VERIF_TSAN_ACQUIRE(p) __tsan_acquire((void *)(p))
+#else
+#define FIX8_VERIF_TSAN_RELEASE(p)
+#define FIX8_VERIF_TSAN_ACQUIRE(p)
+#endif
+#endif
+
 #if defined FIX8_VERIF
 /*
  * Verification hook (off unless FIX8_VERIF is defined; without it the preprocessor output is unchanged).
@@ -497,6 +512,7 @@ public:
             }
         } while(1);
         FIX8_VERIF_MPMC_POINT(VERIF_PUSH_RESERVED, pw);
+        FIX8_VERIF_TSAN_RELEASE(data);
         ((uSWSR_Ptr_Buffer*)(buf[idx]))->push(data); // cannot fail
         FIX8_VERIF_MPMC_POINT(VERIF_PUSH_STORED, pw);
         atomic_long_set(&seqP[idx],(pw+mask+1));
@@ -532,6 +548,7 @@ public:
         FIX8_VERIF_MPMC_POINT(VERIF_POP_RESERVED, pr);
         ((uSWSR_Ptr_Buffer*)(buf[idx]))->pop(data);
         FIX8_VERIF_MPMC_POINT(VERIF_POP_TAKEN, pr);
+        FIX8_VERIF_TSAN_ACQUIRE(*data);
         atomic_long_set(&seqC[idx],(pr+mask+1));
         FIX8_VERIF_MPMC_POINT(VERIF_POP_PUBLISHED, pr);
         return true;
